@@ -390,6 +390,9 @@ func TestVerifBounded_C02_Shapes(t *testing.T) {
 	}
 	evals, failures := 0, 0
 	for k := 0; k < n; k++ {
+		if failures >= 3 {
+			break // three failing histories are enough to report; each further one costs its whole timeout
+		}
 		evals++
 		if detail, bad := c02sHistory(seed*1000 + int64(k)); bad {
 			failures++
